@@ -37,6 +37,8 @@ CLAIMED["C20"]=("guard dominance at every write of the AVS registry, task counte
   "structured-dominance facts with call-outcome and comparison normal forms over type-checked AST; store effect summaries and call graph for the writer/caller sets", "4/C20")
 CLAIMED["C13"]=("fee-less classification (every message a create-price message); every fee-less ante branch ends in next or error and carries its duty (gas limit 0, top priority, size limit, signer = key address, signature per signer, nonce check per message with the creator's consensus address); ante chain order; nonce check classes and single guarded write; nonce lifecycle (zero only when absent, removed when sealed and at finalisation, added for new rounds; writer set); counted-only-if guards dominate aggregation incl. every required source; timestamp window from the unrounded block time + 5 s for every price",
   "structured-dominance facts with call-outcome and comparison normal forms over type-checked AST; store effect summaries for the nonce writer set; decorator-order table read from the chain constructor", "4/C13")
+CLAIMED["C15"]=("per-identifier callback never stops the iteration and ticks at most once; start gate and strict tick condition classes; first tick sets number 1 / configured start, later ticks +1 and start += duration; end(n) before the increment, start(n) after it on every tick incl. the first, record stored between them under its own identifier; multi-hook fan-out over every subscriber in slice order; registration order distribution, operator, dogfood, mint, AVS; who may notify / write epoch records",
+  "dataflow-shape, ordering and comparison-class rules over type-checked AST; store effect summaries and call graph for the writer/caller sets", "4/C15")
 NA={}
 def main():
     checks=[]
